@@ -22,7 +22,14 @@ def gxx(work, rel, incs):
     if p.returncode == 0:
         return None
     errs = [l for l in p.stderr.splitlines() if 'error' in l]
-    return errs[:4] or [p.stderr[-300:]]
+    line_text = ''
+    m = re.match(r'(/[^:]+):(\d+):', errs[0]) if errs else None
+    if m:
+        try:
+            line_text = open(m.group(1)).read().splitlines()[int(m.group(2)) - 1][:600]
+        except Exception:  # noqa
+            pass
+    return (errs[:4] or [p.stderr[-300:]]), line_text
 
 
 def judge_tree(tree, cpp_user_headers=()):
@@ -53,7 +60,8 @@ def judge_tree(tree, cpp_user_headers=()):
         for (lang, rel, _), errs in zip(jobs, results):
             stats[lang + '_files'] += 1
             if errs:
-                issues.append({'kind': 'does-not-compile', 'lang': lang, 'file': rel, 'message': norm_err(errs[0]), 'errors': errs})
+                errs, line_text = errs
+                issues.append({'kind': 'does-not-compile', 'lang': lang, 'file': rel, 'message': norm_err(errs[0]), 'errors': errs, 'line_text': line_text})
     finally:
         shutil.rmtree(work, ignore_errors=True)
     ok, err, jw = jvm_judge.compile_java(tree)
